@@ -44,7 +44,7 @@ EOLS = [b"\n", b"\n", b"\n", b"\r\n", b"\n\n", b"\n \n"]
 KEY_IN = b"AZaz09_.*-mQ5"
 KEY_OUT = b"/:@[`{+,)^ !\x7f\x80\xff"
 VAL_CH = b"abc XYZ019=#;[]%\t\r\x80\xff.-_*\"'\\"
-SECT_CH = b"abAZ09 ._-*/=#;[%\t\r\x80"
+SECT_CH = b"abAZ09 ._-*/=#;[%\t\r\x0b\x0c\x80"
 
 
 def pick_bytes(rng, alphabet, lo, hi):
